@@ -264,6 +264,25 @@ theorem one_writer_per_stream :
     Kap.C19.Gen.serverWriters.map Prod.fst = ["go"] ∧ Kap.C19.Gen.agentWriters.map Prod.fst = ["go"] := by
   decide
 
+/-- **A process' pipe must be read to its end before the process is reaped** (`UDFProcess.Open`: `server.WaitIO()`
+before `cmd.Wait()`; `exec.Cmd.Wait` closes the parent's end of the stdout pipe and whatever is still unread there is
+gone): if the pipe is closed after the server has read only `cut` bytes of the frames the process wrote - at ANY point
+before the end, under any fragmentation - the server gets a STRICT prefix of the messages: at least the last message
+the process wrote back is lost (seeded change C19-8 reaped the process one second after it exited; with a consumer of
+`Out()` stalled for longer, echoed points never came out). Read to the end (`framing_chunk_independent`) nothing is. -/
+theorem early_reap_loses_messages (ps : List (List Nat)) (cs : Chunks) (ewd : Bool) (hlen : ∀ p ∈ ps, p.length < 2 ^ 64)
+    (hcut : cs.flatten <+: (ps.map frame).flatten) (hshort : cs.flatten.length < (ps.map frame).flatten.length) :
+    ∃ k, k < ps.length ∧ (readAll ewd cs).1 = ps.take k := by
+  refine ⟨(wholeFrames (ps.map (fun p => (frame p).length)) cs.flatten.length).1, ?_,
+    (framing_truncation_safe ps cs ewd hlen hcut).1⟩
+  have h := wholeFrames_lt_of_cut_lt (ps.map (fun p => (frame p).length)) cs.flatten.length
+    (by intro l hl; simp only [List.mem_map] at hl; obtain ⟨p, _, rfl⟩ := hl; exact frame_length_pos p)
+    (by
+      have : (ps.map (fun p => (frame p).length)).sum = (ps.map frame).flatten.length := by
+        simp [List.length_flatten, List.map_map, Function.comp_def]
+      omega)
+  simpa using h
+
 /-! ### Non-vacuity: the hypotheses are met by concrete, non-trivial instances -/
 
 /-- 300 needs a two-byte varint; its bytes split one per read, a stray empty read, the rest in one chunk. -/
@@ -287,6 +306,11 @@ def exBatch : Item := .batch false exB [exBP1, exBP2]
 
 theorem nonvacuity_inputs_wf : (Item.pt exPoint).WF ∧ exBatch.WF :=
   ⟨⟨by decide, rfl⟩, ⟨rfl, rfl⟩, by decide⟩
+
+/-- `early_reap_loses_messages` instantiated: two frames written, the pipe closed after 5 of the 7 bytes. -/
+example : ∃ k, k < 2 ∧ (readAll false [[2, 8], [42, 3, 1]]).1 = [[8, 42], [1, 2, 3]].take k :=
+  early_reap_loses_messages [[8, 42], [1, 2, 3]] [[2, 8], [42, 3, 1]] false (by decide)
+    (by simp [frame, putUvarint_lt]) (by simp [frame, putUvarint_lt])
 
 /-- `interleaved_requests_read_back` instantiated: two data payloads, a keepalive taken between them, one-byte
 reads, identity codec. -/
